@@ -15,7 +15,7 @@ import time
 
 import vlib
 
-THEOREMS = ["C16_race_free", "C16_protected", "C16_unlocked_read_races", "C16_atomic_step", "C16_atomic", "C16_atomic_meaning",
+THEOREMS = ["C16_race_free", "C16_protected", "C16_unlocked_read_races", "C16_atomic_step", "C16_atomic", "C16_atomic_meaning", "C16_pfx_calls",
             "C16_translation_complete", "C16_lifecycle_balanced", "C16_instance_decided", "C16_instance_outside_known",
             "C16_admitted_is", "C16_instance_race_free", "C16_instance_all_iterations"]
 
